@@ -819,12 +819,18 @@ class Interp:
         if isinstance(v, self.models.SymRange):
             i = v.start
             k = 0
+            cap = getattr(ctx, 'max_unroll', None) or 64
+            if is_z3(simp(zint(v.stop) - zint(v.start))) and not ctx.is_true(zint(v.stop) - zint(v.start) <= cap * (v.step if isinstance(v.step, int) and v.step > 0 else 1)):
+                # unrolling only makes sense when the path condition bounds the number of iterations
+                raise Unsupported("iteration over a range of unbounded symbolic length without a loop invariant")
             while True:
                 if not ctx.decide(zint(i) < zint(v.stop)):
                     return
                 yield simp(i)
                 i = simp(zint(i) + v.step)
                 k += 1
+                if k > cap:
+                    raise Unsupported("iteration over a symbolic range: more than %d elements unrolled" % cap)
             return
         if isinstance(v, self.models.LazySeq):
             for x in v.iterate(self):
@@ -1208,6 +1214,23 @@ class Interp:
 
     PURE_CALLS = {'chr', 'ord', 'len', 'int', 'str', 'hex', 'min', 'max', 'abs'}
 
+    def is_pure_expr_for_map(self, node):
+        """element expressions we accept as pure functions of the loop variable: arithmetic, formatting, attribute reads,
+        calls of the built-ins above and of str.format / % on literals"""
+        for n in ast.walk(node):
+            if isinstance(n, ast.Call):
+                f = n.func
+                if isinstance(f, ast.Name) and f.id in self.PURE_CALLS:
+                    continue
+                if isinstance(f, ast.Attribute) and f.attr in ('format', 'upper', 'lower', 'hex', 'strip', 'rstrip', 'lstrip') and \
+                        isinstance(f.value, (ast.Constant, ast.Name, ast.Attribute)):
+                    continue
+                return False
+            if isinstance(n, (ast.Await, ast.Yield, ast.YieldFrom, ast.NamedExpr, ast.Lambda, ast.ListComp, ast.GeneratorExp,
+                              ast.SetComp, ast.DictComp)) and n is not node:
+                return False
+        return True
+
     def is_pure_expr(self, node):
         for n in ast.walk(node):
             if isinstance(n, ast.Call):
@@ -1330,6 +1353,28 @@ class Interp:
 
     def ex_ListComp(self, node, fr):
         out = []
+        gens = node.generators
+        if len(gens) == 1 and not gens[0].ifs and not gens[0].is_async and isinstance(gens[0].target, ast.Name):
+            src = self.eval(gens[0].iter, fr)
+            if isinstance(src, list) and any(isinstance(e, _Chunk) for e in src):
+                # mapping a pure expression of the loop variable over a list with an opaque sub-sequence: the opaque part maps
+                # to an opaque part (a function of the expression's text and of that sub-sequence)
+                tgt = gens[0].target.id
+                free = {n.id for n in ast.walk(node.elt) if isinstance(n, ast.Name) and isinstance(n.ctx, ast.Load)} - {tgt}
+                if free & set(fr.locals) or not self.is_pure_expr_for_map(node.elt):
+                    raise Unsupported("comprehension over a list with an opaque sub-sequence whose element expression is not a pure "
+                                      "function of the loop variable")
+                from .seq import Val as _Val
+                key = lit(ast.dump(node.elt))
+                sub = Frame(fr.func, dict(fr.locals))
+                for e in src:
+                    if isinstance(e, _Chunk):
+                        out.append(_Chunk(ufun('v_map', PyStr, _Val, _Val)(key, e.term)))
+                    else:
+                        sub.locals[tgt] = e
+                        out.append(self.eval(node.elt, sub))
+                self.ctx.new_ids.add(id(out))
+                return out
         self.comp(node.generators, 0, fr, lambda f: out.append(self.eval(node.elt, f)))
         self.ctx.new_ids.add(id(out))
         return out
